@@ -243,6 +243,23 @@ def probeLine (line : String) : String :=
       let a := fint f "a"
       "ok " ++ mval toString (Dec.ceil a) ++ " " ++ mval toString (Dec.roundInt a) ++ " " ++ mval toString (Dec.truncateInt a)
     | "fmt" => "ok " ++ toHex (formatTimeBytes (fint f "t"))
+    | "dec" =>
+      let t := fint f "t"; let a := fbytes f "a"; let b := fbytes f "b"; let i := fnat f "i"; let j := fnat f "j"
+      let sn : Except String Nat → String := fun r => match r with | .ok n => "ok " ++ toString n | .error _ => "panic"
+      let sb : Except String Bytes → String := fun r => match r with | .ok x => "ok " ++ toHex x | .error _ => "panic"
+      open Hub.Generated.Keys in
+      match fget f "f" with
+      | "subscription.IDFromPayoutForAccountByNodeKey" => sn (subscription.IDFromPayoutForAccountByNodeKey (subscription.PayoutForAccountByNodeKey a b i))
+      | "subscription.IDFromSubscriptionForAccountKey" => sn (subscription.IDFromSubscriptionForAccountKey (subscription.SubscriptionForAccountKey a i))
+      | "subscription.AccAddrFromSubscriptionForAccountKey" => sb (subscription.AccAddrFromSubscriptionForAccountKey (subscription.SubscriptionForAccountKey a i))
+      | "subscription.IDFromPayoutForNextAtKey" => sn (subscription.IDFromPayoutForNextAtKey (subscription.PayoutForNextAtKey t i))
+      | "session.IDFromSessionForAllocationKey" => sn (session.IDFromSessionForAllocationKey (session.SessionForAllocationKey i a j))
+      | "session.IDFromSessionForAccountKey" => sn (session.IDFromSessionForAccountKey (session.SessionForAccountKey a i))
+      | "node.AddressFromNodeForPlanKey" => sb (node.AddressFromNodeForPlanKey (node.NodeForPlanKey i a))
+      | "node.AddressFromNodeForInactiveAtKey" => sb (node.AddressFromNodeForInactiveAtKey (node.NodeForInactiveAtKey t a))
+      | "plan.IDFromPlanForProviderKey" => sn (plan.IDFromPlanForProviderKey (plan.PlanForProviderKey a i))
+      | "subscription.IDFromSubscriptionForInactiveAtKey" => sn (subscription.IDFromSubscriptionForInactiveAtKey (subscription.SubscriptionForInactiveAtKey t i))
+      | _ => "bad-case"
     | "key" =>
       let t := fint f "t"; let a := fbytes f "a"; let b := fbytes f "b"; let i := fnat f "i"; let j := fnat f "j"
       open Hub.Generated.Keys in
